@@ -89,6 +89,7 @@ type Sys struct {
 	regOrder  []int // live type indices in registration order (-1-n for filler n)
 	fillCount map[int]int
 	lastUnreg *ecs.CachedFilter
+	chaosSeq  int
 }
 
 var allSubs = event.Subscription(63)
@@ -232,13 +233,53 @@ func (l *recListener) Notify(w *ecs.World, e ecs.EntityEvent) {
 		escaped := false
 		func() {
 			defer func() { recover() }()
-			switch ev.Ent.ID() % 3 {
+			s.chaosSeq++
+			var anyID ecs.ID
+			have := false
+			for k, ok := range s.Reg {
+				if ok {
+					anyID, have = s.IDs[k], true
+					break
+				}
+			}
+			switch s.chaosSeq % 10 {
 			case 0:
 				w.NewEntity()
 			case 1:
 				w.RemoveEntity(e.Entity)
-			default:
+			case 2:
 				w.Reset()
+			case 3:
+				ecs.NewBuilder(w).NewBatch(2)
+			case 4:
+				w.Batch().RemoveEntities(ecs.All())
+			case 5:
+				if have {
+					w.Batch().Add(ecs.All(), anyID)
+				} else {
+					w.NewEntity()
+				}
+			case 6:
+				if e.OldRelation != nil {
+					w.Relations().Set(e.Entity, *e.OldRelation, ecs.Entity{})
+					w.Relations().Set(e.Entity, *e.OldRelation, e.Entity)
+				} else {
+					w.NewEntity()
+				}
+			case 7:
+				if len(e.RemovedIDs) > 0 {
+					w.Remove(e.Entity, e.RemovedIDs[0])
+				} else {
+					w.NewEntity()
+				}
+			case 8:
+				d := w.DumpEntities()
+				w.LoadEntities(&d)
+			default:
+				if have {
+					w.Exchange(e.Entity, nil, e.RemovedIDs)
+				}
+				w.NewEntityWith()
 			}
 			escaped = true
 		}()
